@@ -148,6 +148,10 @@ pub fn plans(ctx: &WorkerCtx) -> Vec<Plan> {
 // The same oracle over the real `std::time::Instant` / `Duration` implementation of the time traits,
 // with nanosecond-granular clock steps (the virtual clock above counts whole microseconds).
 // ---------------------------------------------------------------------------
+/// b/e < frac decided exactly (frac = m * 2^exp as a dyadic rational, big-integer comparison). A correctly
+/// rounded quotient of two exactly converted integers is monotone, so an implementation that refuses when
+/// fl(b/e) >= frac never allows a share that is not below the limit; for times under 2^53 ns the exact
+/// comparison therefore raises no alarm on such an implementation, and no slack is needed.
 fn share_below_ns(b: u64, e: u64, frac: f64) -> bool {
     if !(frac > 0.0) || b == 0 {
         return true;
@@ -155,9 +159,18 @@ fn share_below_ns(b: u64, e: u64, frac: f64) -> bool {
     if e == 0 {
         return false;
     }
-    // the implementation divides two f64 second counts (relative error ~1e-16); 1e-9 of slack keeps an exact
-    // boundary from being judged either way
-    (b as f64) / (e as f64) < frac * (1.0 + 1e-9)
+    if frac >= 1.0 {
+        return b < e;
+    }
+    let bits = frac.to_bits();
+    let raw_exp = ((bits >> 52) & 0x7ff) as i64;
+    let (m, exp) = if raw_exp == 0 { (bits & ((1u64 << 52) - 1), -1074i64) } else { ((bits & ((1u64 << 52) - 1)) | (1u64 << 52), raw_exp - 1075) };
+    // frac < 1 => exp < 0; b/e < m 2^exp  <=>  b 2^-exp < m e
+    let sh = (-exp) as u32;
+    if ((b as u128).leading_zeros()) < sh {
+        return false; // the left side is at least 2^128, the right side below 2^117
+    }
+    ((b as u128) << sh) < (m as u128) * (e as u128)
 }
 #[derive(Clone)]
 struct StdState {
@@ -177,7 +190,7 @@ pub fn std_time_dfs(cfg: &Cfg, depth: usize) -> (u64, Option<(Vec<(String, i64)>
         Err(e) => return (0, Some((vec![], format!("{:?}", e)))),
     };
     let events = [T::BlockingBegin { machine: mid(0) }, T::BlockingEnd, T::NormalRecv];
-    let deltas: [i64; 8] = [0, 1, 500, 999, 1000, 1500, 3000, -700];
+    let deltas: [i64; 10] = [0, 1, 5, 15, 500, 999, 1000, 1500, 3000, -700];
     let mut calls = 0u64;
     let mut stack: Vec<(StdState, Vec<(u8, u8)>)> = vec![(StdState { f, off: 0, blocked: 0, active: false, since: 0 }, vec![])];
     while let Some((st, hist)) = stack.pop() {
@@ -233,12 +246,13 @@ pub fn std_time_configs() -> Vec<Cfg> {
     let mut lib = vec![];
     for replace in [false, true] {
         for allowed in [0u64, 1, 2] {
-            for frac in [0.0, 0.25, 0.5, 1.0] {
+            // 0.75 and 0.875: shares equal to the limit whose quotient of rounded second counts falls just below it
+            for frac in [0.0, 0.25, 0.5, 0.75, 0.875, 1.0] {
                 lib.push((format!("blocker[k0,rep{replace},allowed{allowed},frac{frac}]"), fam::blocker(0, replace, allowed, frac)));
             }
         }
     }
-    fam::singles(&lib, &[(0.0, 0.0), (0.0, 0.5), (0.0, 0.25)])
+    fam::singles(&lib, &[(0.0, 0.0), (0.0, 0.5), (0.0, 0.75)])
 }
 
 pub const RULE: &str = "single-event calls on the real Framework from every explored state over a virtual clock (time steps incl. 0 and backwards); the observer recomputes blocked time from the fed BlockingBegin/BlockingEnd events and time stamps and judges every returned BlockOutgoing. distinct_nontrivial = distinct product states first reached by a call in which blocking was returned with the microsecond allowance exhausted, or a blocking state was entered and no action came back";
